@@ -7,12 +7,12 @@ when gtod_rc = 0; a call that is the first thing evaluated in an `if` condition 
 assigned to the `int` local msecs is computed in long (mathematical integers: 64-bit overflow is not modelled) and then
 converted to int = wrapped to the signed 32-bit range (`wrapi32`, the "XXX: msecs can overflow" of the source); C's
 truncating `/` is Z.quot."""
-import os, sys
-sys.path.insert(0, os.path.dirname(os.path.abspath(__file__)))
-import importlib
-import _ctrans
-importlib.reload(_ctrans)
-from _ctrans import TErr, Fn, strip_comments
+import os
+import importlib.util
+_spec = importlib.util.spec_from_file_location("facts__ctrans", os.path.join(os.path.dirname(os.path.abspath(__file__)), "_ctrans.py"))
+_ctrans = importlib.util.module_from_spec(_spec)
+_spec.loader.exec_module(_ctrans)      # by path: tools/facts must never be on sys.path (facts/base64.py would shadow the stdlib module)
+TErr, Fn, strip_comments = _ctrans.TErr, _ctrans.Fn, _ctrans.strip_comments
 import re
 
 
